@@ -31,7 +31,8 @@ theorem Safe.pure {α : Type} {Q : α → Prop} {v : α} (h : Q v) : Safe Q (Pur
 
 /-- what the context must guarantee about the two callbacks of `EvalCtx` -/
 structure CtxOk (cx : EvalCtx) (Γ : TyCtx) : Prop where
-  sub : ∀ k ts env', Γ.subs[k]? = some ts → Safe (fun t => ∀ r ∈ t, rowHasTys r ts = true) (cx.runSub k env')
+  sub : ∀ k ts env', Γ.subs[k]? = some ts → envHasTys env' Γ.env = true →
+    Safe (fun t => ∀ r ∈ t, rowHasTys r ts = true) (cx.runSub k env')
   fn : ∀ name vs σs σ, Γ.fnTy name σs = some σ → valsHaveTys vs σs = true → Good σ (cx.fn name vs)
 
 /-! ### values and types -/
@@ -445,7 +446,7 @@ theorem eval_good : ∀ (e : Expr) (σ : STy), typeOf Γ e = some σ → Good σ
     · rename_i ts hts
       cases h
       rw [eval]
-      exact Safe.bind (hc.sub sub ts env hts) (fun t _ => by simp [Safe, Pure.pure, Except.pure, valHasTy, Val.tyOf])
+      exact Safe.bind (hc.sub sub ts env hts he) (fun t _ => by simp [Safe, Pure.pure, Except.pure, valHasTy, Val.tyOf])
     · cases h
   | .inSub e sub neg, σ, h => by
     simp only [typeOf] at h
@@ -456,7 +457,7 @@ theorem eval_good : ∀ (e : Expr) (σ : STy), typeOf Γ e = some σ → Good σ
         cases h
         rw [eval]
         refine Safe.bind (eval_good e σe hσe) (fun x hx => ?_)
-        refine Safe.bind (hc.sub sub ts env hts) (fun t ht => ?_)
+        refine Safe.bind (hc.sub sub ts env hts he) (fun t ht => ?_)
         have hall : ∀ v ∈ t.map (fun r => r.headD .null), ∃ o, Val.cmp3 cx.fo x v = .ok o := by
           intro v hv
           obtain ⟨r, hr, rfl⟩ := List.mem_map.1 hv
@@ -472,7 +473,7 @@ theorem eval_good : ∀ (e : Expr) (σ : STy), typeOf Γ e = some σ → Good σ
     · rename_i ts hts
       cases h
       rw [eval]
-      refine Safe.bind (hc.sub sub ts env hts) (fun t ht => ?_)
+      refine Safe.bind (hc.sub sub ts env hts he) (fun t ht => ?_)
       match t, ht with
       | [], _ => exact valHasTy_null _
       | [r], ht => exact headD_hasTy (ht r (by simp))
